@@ -220,17 +220,114 @@ func rewriteFile(rel string, src []byte, sites map[string]int) ([]byte, bool, er
 			}
 		}
 	}
-	// `go func` started from init() in the outlier workers: started by the harness instead.
+	// The outlier workers: init() starts a goroutine that consumes a task channel, and the tasks arm
+	// time.AfterFunc timers. In the simulation (1) init is renamed so that no goroutine starts, (2) a function
+	// VerifDrain<Worker>() with the SAME loop body is generated, which the harness calls to consume what is queued
+	// (on its own goroutine, in an order it decides), (3) time.AfterFunc / time.Now go to the simulator's timer
+	// queue and clock (verifsim.AfterFunc / TimeNow; they fall back to real time when no queue is installed).
+	var appendix string
 	if rel == "core/outlier/recycler.go" || rel == "core/outlier/retryer.go" {
+		base := strings.TrimSuffix(filepath.Base(rel), ".go")
+		Base := strings.ToUpper(base[:1]) + base[1:]
 		for _, d := range f.Decls {
 			fd, ok := d.(*ast.FuncDecl)
 			if ok && fd.Recv == nil && fd.Name.Name == "init" {
-				base := strings.TrimSuffix(filepath.Base(rel), ".go")
-				fd.Name.Name = "VerifStart" + strings.ToUpper(base[:1]) + base[1:]
+				fd.Name.Name = "VerifStart" + Base
 				changed = true
 				sites["outlier init"]++
+				ast.Inspect(fd, func(n ast.Node) bool {
+					rs, ok := n.(*ast.RangeStmt)
+					if !ok || appendix != "" {
+						return true
+					}
+					ch, ok1 := rs.X.(*ast.Ident)
+					key, ok2 := rs.Key.(*ast.Ident)
+					if !ok1 || !ok2 || rs.Value != nil || !strings.HasSuffix(ch.Name, "Ch") {
+						return true
+					}
+					body := string(src[fset.Position(rs.Body.Lbrace).Offset+1 : fset.Position(rs.Body.Rbrace).Offset])
+					appendix = fmt.Sprintf(`
+
+// VerifDrain%[1]s consumes what is queued on %[2]s with the loop body of the worker goroutine (generated by the
+// /verif overlay). A panic ends the worker for good, as it ends the goroutine in the shipped code.
+func VerifDrain%[1]s() (n int) {
+	if verifDead%[1]s {
+		return 0
+	}
+	defer func() {
+		if err := recover(); err != nil {
+			verifDead%[1]s = true
+			logging.Error(fmt.Errorf("%%+v", err), "Unexpected panic when consuming %[2]s")
+		}
+	}()
+	for {
+		select {
+		case %[3]s := <-%[2]s:
+			n++
+			%[4]s
+		default:
+			return n
+		}
+	}
+}
+`, Base, ch.Name, key.Name, body)
+					sites["outlier worker drain"]++
+					return true
+				})
 			}
 		}
+		n := 0
+		ast.Inspect(f, func(nd ast.Node) bool {
+			sel, ok := nd.(*ast.SelectorExpr)
+			if !ok {
+				return true
+			}
+			id, ok := sel.X.(*ast.Ident)
+			if !ok || id.Name != "time" || id.Obj != nil {
+				return true
+			}
+			switch sel.Sel.Name {
+			case "AfterFunc":
+				id.Name = "verifsim"
+				n++
+			case "Now":
+				id.Name, sel.Sel.Name = "verifsim", "TimeNow"
+				n++
+			}
+			return true
+		})
+		if n > 0 {
+			changed = true
+			sites["outlier timers"] += n
+			addImport(f, "verifsim", "verif/sim")
+		}
+	}
+	// Map iteration whose ORDER decides behaviour (which of several outlier nodes are filtered when the ejection
+	// cap bites): the simulator owns the order. `for k, v := range m` in outlier.checkAllNodes becomes
+	// `for _, k := range verifMapOrder(m) { v := m[k]; ... }`; verifMapOrder (helper file) sorts the keys and lets
+	// the harness permute them from the case's PRNG.
+	if rel == "core/outlier/slot.go" {
+		ast.Inspect(f, func(n ast.Node) bool {
+			rs, ok := n.(*ast.RangeStmt)
+			if !ok || rs.Tok != token.DEFINE {
+				return true
+			}
+			x, ok1 := rs.X.(*ast.Ident)
+			k, ok2 := rs.Key.(*ast.Ident)
+			v, ok3 := rs.Value.(*ast.Ident)
+			if !ok1 || !ok2 || !ok3 || x.Name != "nodeBreaks" || k.Name == "_" || v.Name == "_" {
+				return true
+			}
+			rs.Key = ast.NewIdent("_")
+			rs.Value = ast.NewIdent(k.Name)
+			rs.X = &ast.CallExpr{Fun: ast.NewIdent("verifMapOrder"), Args: []ast.Expr{ast.NewIdent(x.Name)}}
+			asg := &ast.AssignStmt{Lhs: []ast.Expr{ast.NewIdent(v.Name)}, Tok: token.DEFINE,
+				Rhs: []ast.Expr{&ast.IndexExpr{X: ast.NewIdent(x.Name), Index: ast.NewIdent(k.Name)}}}
+			rs.Body.List = append([]ast.Stmt{asg}, rs.Body.List...)
+			changed = true
+			sites["ordered map range"]++
+			return true
+		})
 	}
 	if !changed {
 		return src, false, nil
@@ -240,6 +337,7 @@ func rewriteFile(rel string, src []byte, sites map[string]int) ([]byte, bool, er
 	if err := cfg.Fprint(&buf, fset, f); err != nil {
 		return nil, false, err
 	}
+	buf.WriteString(appendix)
 	return buf.Bytes(), true, nil
 }
 
